@@ -14,6 +14,7 @@ import (
 	"strings"
 
 	"github.com/MichaelMure/git-bug/entities/bug"
+	"github.com/MichaelMure/git-bug/entities/common"
 	"github.com/MichaelMure/git-bug/entities/identity"
 	"github.com/MichaelMure/git-bug/entity"
 	"github.com/MichaelMure/git-bug/repository"
@@ -181,6 +182,33 @@ func session(out *hx.Writer, round int) {
 	grindComment(bugs[1], func(id string) bool { return sharePrefix(id, z, 2) }) // other bug sharing 3 chars, comment sharing 2
 	grindComment(bugs[1], func(id string) bool { return id[0] != z[0] })
 	grindComment(bugs[3], func(id string) bool { return true })
+	// operations that are no comments (title, status and label changes have combined ids built the same way, and items in the
+	// timeline), some sharing their first characters with a comment of the same bug: they are nobody's comment
+	var others []string
+	grindOther := func(b *bug.Bug, kind int, ok func(id string) bool) {
+		for {
+			unix++
+			var op bug.Operation
+			switch kind {
+			case 0:
+				op = bug.NewSetTitleOp(author, unix, fmt.Sprintf("t%d", unix), "ids")
+			case 1:
+				op = bug.NewSetStatusOp(author, unix, common.ClosedStatus)
+			default:
+				op = bug.NewLabelChangeOperation(author, unix, []bug.Label{bug.Label(fmt.Sprintf("l%d", unix))}, nil)
+			}
+			if ok(op.Id().String()) {
+				b.Append(op)
+				others = append(others, entity.CombineIds(b.Id(), op.Id()).String())
+				return
+			}
+		}
+	}
+	grindOther(bugs[0], 0, func(id string) bool { return sharePrefix(id, z, 3) })
+	grindOther(bugs[0], 1, func(id string) bool { return sharePrefix(id, z, 2) })
+	grindOther(bugs[0], 2, func(id string) bool { return sharePrefix(id, z, 1) })
+	grindOther(bugs[1], 0, func(id string) bool { return sharePrefix(id, z, 2) })
+	grindOther(bugs[3], 2, func(id string) bool { return true })
 	for _, b := range bugs {
 		hx.Must(b.Commit(repo))
 	}
@@ -415,6 +443,11 @@ func session(out *hx.Writer, round int) {
 		}
 	}
 	_ = _select.Clear(c, bug.Namespace)
+	for _, o := range others {
+		for L := 1; L <= 64; L++ {
+			queryComment(o[:L])
+		}
+	}
 	for _, cr := range crefs {
 		for L := 0; L <= 64; L++ {
 			queryComment(cr.combined[:L])
